@@ -230,7 +230,11 @@ func genRegistryCase(t *rapid.T) RegistryCase {
 	if c.Mode != modeSeq {
 		c.G = rapid.IntRange(2, 4).Draw(t, "g")
 	}
+	// rapid favours small numbers; the longer of two draws keeps histories of 10-30 ops common
 	n := rapid.IntRange(1, 30).Draw(t, "nops")
+	if n2 := rapid.IntRange(1, 30).Draw(t, "nops2"); n2 > n {
+		n = n2
+	}
 
 	// simulation of the reference, needed only for the exclusions
 	sim := make([]map[string]bool, len(epURLs))
